@@ -13,8 +13,8 @@ Conforms(exp, got) ==
   /\ exp.class = "stdout" => (exp.kind = got.kind /\ (exp.kind = "help" => ToJson(exp.path) = got.pjson))
 TInit == /\ l = 1 /\ bad = 0 /\ def = DefSeq[1] /\ env = <<>> /\ line = <<>> /\ st = GInitSt(DefSeq[1])
 TNext == /\ l <= Len(Rec)
-         /\ LET r == Rec[l]  d == DefById(r.def)  s == GRun(d, GInitSt(d), r.line)  o == GOutcome(d, s, <<>>) IN
-            /\ def' = d /\ env' = env /\ line' = r.line /\ st' = s
+         /\ LET r == Rec[l]  d == DefById(r.def)  s == GRun(d, GInitSt(d), r.line)  o == GOutcome(d, s, r.env) IN
+            /\ def' = d /\ env' = r.env /\ line' = r.line /\ st' = s
             /\ IF Conforms(o, r.got) THEN bad' = bad
                ELSE /\ PrintT(<<"REJECT", l, ToJson(o)>>) /\ bad' = bad + 1
          /\ l' = l + 1
